@@ -1,7 +1,7 @@
 import ZipVerif.Lemmas.FaithfulWalk
 /-
-Faithfulness, part 3: one entry.  Placing an entry of a consistent archive never fails and equals
-`putEntry`; applying its mode equals `setMode`; both preserve the invariants.
+Faithfulness, part 3: one entry.  Placing an entry of a consistent archive never fails, equals
+`putEntry` and preserves the invariants.  (Applying the modes: Lemmas/FaithfulModes.lean.)
 -/
 
 namespace ZipVerif.Model.Extract
@@ -136,8 +136,6 @@ structure EntryOK (c : Cfg) (es : List EntryView) (e : EntryView) : Prop where
   readOk : e.readErr = none
   file : isDirName e.name = false → tailDot e.name = false ∧ lastNormal (relComps e.name) = true
   dots : isDirName e.name = true → tailDot e.name = true → lastParentOrEmpty (relComps e.name) = true
-  perms : c.priv = true ∨ ∀ m ∈ e.mode.toList,
-    hasBits (m &&& 0o7777) (if isDirName e.name then 0o300 else 0o200) = true
 
 theorem EntryOK.safe {c : Cfg} {es : List EntryView} {e : EntryView} (h : EntryOK c es e) :
     (walk (relComps e.name).reverse.reverse 0).isSome := by
@@ -391,67 +389,5 @@ theorem placeEntry_eq {c : Cfg} {root : Path} {es : List EntryView} {fs : FS} {e
   cases hd : isDirName e.name with
   | true => exact placeEntry_dir hi hk hpc hDF he hd chk
   | false => exact placeEntry_file hi hk hpc hDF he hd chk
-
-/-! ### applying a mode -/
-
-theorem setPermissions_file {c : Cfg} {fs : FS} {s : Name} {rest : List Comp} {d : Path} {b : Bytes}
-    {m0 : Nat} (hw : walkR c fs rest = .ok d) (hsearch : canSearch c fs d = true)
-    (hl : fs.lookup (d ++ [s]) = some (.file b m0)) (mode : Nat) :
-    setPermissions c fs (.normal s :: rest) false mode = .ok (fs.set (d ++ [s]) (.file b (mode &&& 0o7777))) := by
-  simp [setPermissions, locateR_normal (s := s) hw hsearch, hl]
-
-theorem applyMode_eq {c : Cfg} {root : Path} {es : List EntryView} {fs : FS} {n : Name} {mode : Option Nat}
-    (hi : Inv c root fs) (hk : Kinds root es fs) (hpl : Placed c root fs n)
-    (hs : (walk (relComps n).reverse.reverse 0).isSome)
-    (hfile : isDirName n = false → tailDot n = false ∧ n ≠ [])
-    (hperm : c.priv = true ∨ ∀ m ∈ mode.toList,
-      hasBits (m &&& 0o7777) (if isDirName n then 0o300 else 0o200) = true) :
-    applyMode c root n mode fs = (setMode root n mode fs, none) ∧ Inv c root (setMode root n mode fs) ∧
-      Kinds root es (setMode root n mode fs) ∧ Grows c fs (setMode root n mode fs) := by
-  cases mode with
-  | none => exact ⟨rfl, hi, hk, Grows.refl c fs⟩
-  | some m =>
-    have hm : c.priv = true ∨ hasBits (m &&& 0o7777) (if isDirName n then 0o300 else 0o200) = true := by
-      rcases hperm with h | h
-      · exact Or.inl h
-      · exact Or.inr (h m (by simp))
-    unfold Placed at hpl
-    cases hd : isDirName n with
-    | true =>
-      rw [if_pos hd] at hpl
-      obtain ⟨p, hp⟩ := hpl
-      obtain ⟨hpe, m0, hm0⟩ := walk_end hi hs hp
-      have hpr : resolveFrom root (relComps n) = p := by
-        rw [hpe, ← resolveFrom_root_safe root hs, List.reverse_reverse]
-      have hset := setPermissions_dir (walkR_dotted (tailDot n) hp) hm0 (endsSlash n) m
-      rw [hd] at hm
-      have hok : c.priv = true ∨ nodeOK (.dir (m &&& 0o7777)) := hm
-      simp only [applyMode, setMode, joinedR_eq, hset, chmodAt, hpr, hm0]
-      rw [hpe] at hm0 ⊢
-      refine ⟨trivial, hi.set_dir hm0 hok, hk.set (n := .dir _) (hk _ _ hm0), ?_⟩
-      apply grows_set_dir _ hm0
-      rcases hok with h | h
-      · exact Or.inl h
-      · exact Or.inr (hasBits_sub _ h)
-    | false =>
-      rw [if_neg (by simp [hd])] at hpl
-      obtain ⟨s, up, d, b, m0, hr, hw, hl⟩ := hpl
-      obtain ⟨hdot, hne⟩ := hfile hd
-      rw [hr] at hs
-      have hs0 := safe_tail hs
-      have hsearch := (walk_end_search hi hs0 hw).1
-      obtain ⟨hde, _⟩ := walk_end hi hs0 hw
-      have hpr : resolveFrom root (relComps n) = d ++ [s] := by
-        have : relComps n = (Comp.normal s :: up).reverse := by rw [← hr, List.reverse_reverse]
-        rw [this, resolveFrom_reverse_cons, resolveFrom_root_safe root hs0, ← hde]; rfl
-      have hset := setPermissions_file hw hsearch hl m
-      rw [hd] at hm
-      have hok : c.priv = true ∨ nodeOK (.file b (m &&& 0o7777)) := hm
-      have hp : d ++ [s] = root ++ (resolve up.reverse ++ [s]) := by rw [hde, List.append_assoc]
-      simp only [applyMode, setMode, joinedR_eq, hr, List.cons_append, hdot, endsSlash_false hd hne, dotted,
-        Bool.false_eq_true, if_false, hset, chmodAt, hpr, hl]
-      rw [hp] at hl ⊢
-      refine ⟨trivial, hi.set_file hl hok, hk.set (n := .file _ _) (hk _ _ hl), ?_⟩
-      exact grows_set_file _ _ (by rw [hl]; simp)
 
 end ZipVerif.Model.Extract
